@@ -88,6 +88,8 @@ struct CancelTwin {
     pub polled_before_reissue: bool,
     /// after the (possibly cancelled) request: let go of the handle, connect again, poll
     reconnect_after: bool,
+    /// (with `reconnect_after`) the application never calls the request at all
+    skip_request: bool,
     tail: VecDeque<Step>,
     /// the operation that follows the request is a QoS 0 publish (written straight from scratch
     /// space, not through the outbound queue)
@@ -116,6 +118,10 @@ impl Driver for CancelTwin {
         loop {
             match self.stage {
                 0 => {
+                    if self.skip_request {
+                        self.stage = 5;
+                        continue;
+                    }
                     // issue the request: cancelled attempts first
                     self.request_ops.push(v.log.ops.len());
                     if let Some(at) = self.cancels.pop_front() {
@@ -363,8 +369,9 @@ impl Check for C13 {
             out.count("requests_followed_by_a_qos0_publish", 1);
         }
         let polled_flag = std::cell::Cell::new(false);
+        let skip_flag = std::cell::Cell::new(false);
         let run = |cancels: Vec<usize>| -> (RunLog, Shared, Vec<usize>) {
-            let mut d = CancelTwin { prefix: prefix.clone().into(), request: request.clone(), cancels: cancels.into(), stage: 0, drain_left: 0, reissued: false, request_ops: vec![], poll_before_reissue: false, polled_before_reissue: false, reconnect_after, tail: VecDeque::new(), then_qos0, qos0_done: false };
+            let mut d = CancelTwin { prefix: prefix.clone().into(), request: request.clone(), cancels: cancels.into(), stage: 0, drain_left: 0, reissued: false, request_ops: vec![], poll_before_reissue: false, polled_before_reissue: false, reconnect_after, skip_request: skip_flag.get(), tail: VecDeque::new(), then_qos0, qos0_done: false };
             let (log, world) = run_case(&cfg, seed, &mut d, prefix.len() + 400);
             polled_flag.set(d.polled_before_reissue);
             (log, world, d.request_ops)
@@ -372,6 +379,19 @@ impl Check for C13 {
         // 2. reference
         let (alog, aworld, aops) = run(vec![]);
         let a_obs = observe(&alog, &aworld.borrow());
+        // 2b. (reconnect_after) second reference: the application drops the handle without ever
+        // calling disconnect(): a disconnect() given up before it completed either took effect or
+        // left no trace, and what it did before it was given up (finishing owed packets) is the
+        // only thing that may distinguish the next connection from this run
+        let c_obs = if reconnect_after {
+            skip_flag.set(true);
+            let (clog, cworld, _) = run(vec![]);
+            skip_flag.set(false);
+            let o = observe(&clog, &cworld.borrow());
+            Some(o)
+        } else {
+            None
+        };
         let np = aops.first().map(|o| alog.ops[*o].pendings).unwrap_or(0);
         if np == 0 {
             out.evaluations = 1;
@@ -434,9 +454,23 @@ impl Check for C13 {
                 // what the next connection carries does not depend on how far the DISCONNECT got
                 out.count("reconnects_after_a_cancelled_disconnect", 1);
                 let (la, lb) = (a_obs.packets.last(), b_obs.packets.last());
-                if a_obs.packets.len() != b_obs.packets.len() || la != lb || bw.conns.last().is_some_and(|c| c.out.error.is_some()) {
+                let lc = c_obs.as_ref().and_then(|c| c.packets.last());
+                // a (disconnect completed) <= b <= c (no disconnect at all), as subsequences, and
+                // the CONNECT is the same in all three
+                let subseq = |x: &Vec<Vec<u8>>, y: &Vec<Vec<u8>>| {
+                    let mut it = y.iter();
+                    x.iter().all(|p| it.any(|q| q == p))
+                };
+                let ok = match (la, lb, lc) {
+                    (Some(la), Some(lb), Some(lc)) => la == lb || lb == lc || (la.first() == lb.first() && subseq(la, lb) && subseq(lb, lc)),
+                    _ => false,
+                };
+                if la != lb && ok {
+                    out.count("next_connection_like_the_handle_dropped_without_disconnect", 1);
+                }
+                if a_obs.packets.len() != b_obs.packets.len() || !ok || bw.conns.last().is_some_and(|c| c.out.error.is_some()) {
                     let i = la.zip(lb).and_then(|(x, y)| x.iter().zip(y.iter()).position(|(p, q)| p != q)).unwrap_or(0);
-                    out.violations.push(viol("C13", "C13/disconnect/next-connection-differs", format!("disconnect cancelled at await {:?}, handle dropped, connected again: the new connection's outbound stream differs from the uncancelled run at packet {} ({} vs {} packets; uncancelled {} / cancelled {})", cancels, i, la.map(|x| x.len()).unwrap_or(0), lb.map(|x| x.len()).unwrap_or(0), la.and_then(|x| x.get(i)).map(|p| describe(p)).unwrap_or_default(), lb.and_then(|x| x.get(i)).map(|p| describe(p)).unwrap_or_default())));
+                    out.violations.push(viol("C13", "C13/disconnect/next-connection-differs", format!("disconnect cancelled at await {:?}, handle dropped, connected again: the new connection's outbound stream differs from the uncancelled run and from a run without disconnect() at packet {} ({} vs {} packets; uncancelled {} / cancelled {})", cancels, i, la.map(|x| x.len()).unwrap_or(0), lb.map(|x| x.len()).unwrap_or(0), la.and_then(|x| x.get(i)).map(|p| describe(p)).unwrap_or_default(), lb.and_then(|x| x.get(i)).map(|p| describe(p)).unwrap_or_default())));
                 }
             } else if polled_flag.get() {
                 // the application polled between the cancelled disconnect() and the next one: the
